@@ -21,44 +21,23 @@ func verifInAlphabet(s string, alphabet string) bool {
 
 func verifInput(name string, n int) string {
 	s := verifrt.String(name, n)
-	if a := verifrt.ParamStr("alphabet"); a != "" {
+	switch a := verifrt.ParamStr("alphabet"); a {
+	case "":
+	case "ascii":
+		// printable ASCII
+		for i := 0; i < len(s); i++ {
+			verifrt.Assume(verifrt.And(s[i] >= 0x20, s[i] < 0x7f))
+		}
+	default:
 		verifrt.Assume(verifInAlphabet(s, a))
 	}
 	return s
-}
-
-func verifTagKnown(eco, s string) {
-	if eco == "CRAN" {
-		// cause tag of the known CRAN defect: a component that is not a decimal number
-		nondigit := false
-		for i := 0; i < len(s); i++ {
-			c := s[i]
-			isSep := verifrt.Or(c == '.', c == '-')
-			isDigit := verifrt.And(c >= '0', c <= '9')
-			nondigit = verifrt.Or(nondigit, verifrt.Not(verifrt.Or(isSep, isDigit)))
-		}
-		// an empty component (leading/trailing/double separator) also fails SetString
-		empty := len(s) == 0
-		for i := 0; i < len(s); i++ {
-			c := s[i]
-			isSep := verifrt.Or(c == '.', c == '-')
-			if i == 0 || i == len(s)-1 {
-				empty = verifrt.Or(empty, isSep)
-			}
-			if i+1 < len(s) {
-				n := s[i+1]
-				empty = verifrt.Or(empty, verifrt.And(isSep, verifrt.Or(n == '.', n == '-')))
-			}
-		}
-		verifrt.TagIf(verifrt.Or(nondigit, empty), "C07-cran-nonnumeric-component")
-	}
 }
 
 // VerifTotal1: parsing never panics; an accepted version compares equal to itself.
 func VerifTotal1() {
 	eco := verifrt.ParamStr("eco")
 	s := verifInput("s", verifrt.Param("n"))
-	verifTagKnown(eco, s)
 	v, err := Parse(s, eco)
 	if err != nil {
 		verifrt.Reach("rejected")
@@ -78,8 +57,6 @@ func VerifAnti2() {
 	eco := verifrt.ParamStr("eco")
 	a := verifInput("a", verifrt.Param("na"))
 	b := verifInput("b", verifrt.Param("nb"))
-	verifTagKnown(eco, a)
-	verifTagKnown(eco, b)
 	va, err := Parse(a, eco)
 	if err != nil {
 		return
